@@ -448,6 +448,12 @@ impl Monitor for C08 {
             }
         }
     }
+    fn cold_start(&self, rec: &mut Recorder) {
+        cold_start_equal(rec, "parse, then Display of the addresses and of the header", &cold_inputs(), &|x| match guard(|| v1::Header::try_from(x).map(|h| format!("{}|{}|{:>4}", h.addresses, h, h.addresses)).map_err(|_| ())) {
+            Ok(r) => format!("{:?}", r),
+            Err(m) => format!("PANIC {}", m),
+        });
+    }
     fn floor(&self, tier: Tier) -> Vec<&'static str> {
         if tier == Tier::Miri {
             return vec!["oracle:value-unknown", "oracle:value-tcp4", "oracle:value-tcp6"];
